@@ -123,6 +123,18 @@ Section Orders.
     (forall s, In s (segmeta st ++ mmeta st ++ unrot st) -> (In (s_dir s) (dirs A) <-> In (s_dir s) (dirs B))).
   Proof. exact (interrupted_then_repeated_data ord ordp ordn ord_perm ordp_perm ordn_perm). Qed.
 
+  (* Survivors stay searchable: whatever the point k at which the pass is stopped, after the
+     restart and a full pass every line or unrotated segment that was not selected, whose
+     directory existed and (log segments) whose index name was in the names file is searchable:
+     index name present, in the in-memory metadata, files present.  (Holds since the names
+     file is replaced by rename; for the code before the fix see
+     C14_unfixed_interrupted_survivor_searchable_refuted.) *)
+  Theorem C14_interrupted_survivor_searchable : forall hz org st, wf st = true -> mmem_ok hz org st ->
+    forall k s, In s (segmeta st ++ mmeta st ++ unrot st) -> expired hz org s = false -> In (s_dir s) (dirs st) ->
+    (s_kind s = KLog -> has_table st s = true) ->
+    searchable (run ord ordp ordn hz org (restart (interrupted ord ordp ordn k hz org st))) s = true.
+  Proof. exact (interrupted_survivor_searchable ord ordp ordn ord_perm ordp_perm ordn_perm). Qed.
+
   (* the full statement, all directories and the index names included, under the guard "the
      pass selects no metrics segment and empties no index" (interrupt_guard, a boolean function
      of store, horizon and org): every component of the outcome is the same *)
@@ -137,6 +149,7 @@ Section Orders.
 End Orders.
 Print Assumptions C14_retention_selects_exactly.
 Print Assumptions C14_interrupted_then_repeated_guarded.
+Print Assumptions C14_interrupted_survivor_searchable.
 Print Assumptions C14_interrupted_then_repeated_partial.
 Print Assumptions C14_newer_segment_survives.
 Print Assumptions C14_older_segment_is_deleted.
@@ -163,7 +176,9 @@ Proof. exact guard_satisfiable. Qed.
      forall k, run (restart (interrupted k st)) = run (restart st)   on every component.
    Proved above: without guard for metadata files, in-memory metadata and segment directories
    (C14_interrupted_then_repeated_partial), with the guard for every component
-   (C14_interrupted_then_repeated_guarded).  Outside the guard the faithful model violates it in two ways, both reproduced on the real code by the
+   (C14_interrupted_then_repeated_guarded), and survivors stay searchable for every k
+   (C14_interrupted_survivor_searchable).  Outside the guard the faithful model violates the full
+   statement in one way (1); a second one (2) was repaired in siglens, both reproduced on the real code by the
    harness (known/C14.json): *)
 
 (* (1) stopped after metricmeta.json has been renamed and before the tags-tree directories of
@@ -176,16 +191,21 @@ Theorem C14_interrupted_then_repeated_refuted :
 Proof. exists w_tt_store, 500000, 0%Z, 5%nat. exact tagstree_left_behind_witness. Qed.
 Print Assumptions C14_interrupted_then_repeated_refuted.
 
-(* (2) stopped inside vtable.DeleteVirtualTable between the truncation of the index-names file
-   and the write of the remaining names: the names of all surviving indexes of the org are
-   lost and their segments are no longer searchable after the restart and the repeated pass *)
-Theorem C14_interrupted_survivor_searchable_refuted :
+(* (2) FIXED in siglens (fixes/C14-names-file-atomic.diff, known/C14.json status "fixed").
+   The code before the fix rewrote the index-names file in place (os.WriteFile: O_TRUNC, then
+   write).  [pass_effs_unfixed] keeps that effect list as documentation: stopped between the
+   two calls the names of all surviving indexes of the org are lost, their segments are not
+   searchable after the restart and the repeated pass (of either version).  For the repaired
+   code (tmp file + rename, the model's [pass_effs]) the statement is the theorem
+   C14_interrupted_survivor_searchable above. *)
+Theorem C14_unfixed_interrupted_survivor_searchable_refuted :
   exists st hz org k s, wf st = true /\ In s (segmeta st) /\ expired hz org s = false /\
     searchable st s = true /\
     searchable (run idl idl idl hz org (restart st)) s = true /\
-    searchable (run idl idl idl hz org (restart (interrupted idl idl idl k hz org st))) s = false.
+    searchable (run_unfixed idl idl idl hz org (restart (interrupted_unfixed idl idl idl k hz org st))) s = false /\
+    searchable (run idl idl idl hz org (restart (interrupted_unfixed idl idl idl k hz org st))) s = false.
 Proof. exists w_vt_store, 500, 0%Z, 5%nat, w_vt_seg. exact names_file_truncated_witness. Qed.
-Print Assumptions C14_interrupted_survivor_searchable_refuted.
+Print Assumptions C14_unfixed_interrupted_survivor_searchable_refuted.
 
 (* without [mmem_ok]: one selected metrics segment that the in-memory metadata does not know
    yet (rotated less than a refresh period ago) makes DeleteMetricsSegmentData return before
